@@ -255,6 +255,31 @@ SizeStreams(maxn) ==
   \cup {<<SizedEntry(1, sz, TRUE, "ustar", ty)>> : sz \in SizeVals \ {0}, ty \in DataTypes}
 CasesSize(maxn) == {CaseRec("size", "load", <<ChartYamlEntry>> \o st, "empty", <<"chart">>, "", "") : st \in SizeStreams(maxn)}
 
+\* F3r: an entry declaring more than the per-file limit but far LESS than the total budget: it must be rejected from its
+\* header, without its body being read.  Own total limit (BigTLim) so that the body is much larger than any buffer.
+BigTLim == 2 * Huge
+TLimOf(c) == IF c.fam = "sizeread" THEN BigTLim ELSE TLim
+SizeReadStreams ==
+  {<<SizedEntry(1, sz, FALSE, enc, ty)>> : sz \in {FLim + 1, 300000, Huge}, enc \in {"ustar", "pax"}, ty \in DataTypes}
+  \cup {<<SizedEntry(1, small, FALSE, "ustar", "reg"), SizedEntry(2, sz, FALSE, enc, ty)>> :
+          small \in {64, FLim}, sz \in {300000, Huge}, enc \in {"ustar", "pax"}, ty \in DataTypes}
+CasesSizeRead == {CaseRec("sizeread", "load", <<ChartYamlEntry>> \o st, "empty", <<"chart">>, "", "") : st \in SizeReadStreams}
+
+\* F6: ChartDownloader.DownloadTo: the file is saved under the BASE of the chart URL's (once-decoded) path.
+\* URL path = /charts/ + components joined by separators at three encoding levels:
+\*   "/" and "%2F" (decoded by url.Parse: both split), "%252F" (decodes to the TEXT %2F: part of the name),
+\*   "%5C" / "%255C" (a backslash / the text %5C: part of the name on this platform)
+DlSeps  == {"/", "%2F", "%252F", "%5C", "%255C"}
+DlComps == {"n1", "..", "."}
+DlNames == UNION {{[comps |-> Append(cs, "n1"), seps |-> ss] : cs \in [1..(n - 1) -> DlComps], ss \in [1..(n - 1) -> DlSeps]} : n \in 1..3}
+CasesDownload == {CaseRec("download", "download", <<Entry(nm, "reg", 8)>>, l, <<>>, "", "") :
+                    nm \in DlNames, l \in {"empty", "leafOutFile", "dangling"}}
+\* the components after the last splitting separator; the saved name is "n1" itself or a longer single name
+DlSplits(e) == {i \in DOMAIN e.seps : e.seps[i] \in {"/", "%2F"}}
+DlGroup(e)  == IF DlSplits(e) = {} THEN e.comps
+               ELSE SubSeq(e.comps, (CHOOSE i \in DlSplits(e) : \A j \in DlSplits(e) : j <= i) + 1, Len(e.comps))
+DlName(e)   == IF DlGroup(e) = <<"n1">> THEN "n1" ELSE "dlname"
+
 \* F4: Manager.Update with a local dependency and something planted at the lock path
 LockLayouts == {"absent", "file", "linkOutEmpty", "linkOutLock", "linkOutJunk", "linkOutDangling", "linkInFile"}
 CasesLock == {CaseRec("lock", "lock", <<>>, "empty", <<>>, api, ll) : api \in {"v1", "v2"}, ll \in LockLayouts}
@@ -271,12 +296,13 @@ CasesTwo == {CaseRec("two", "extract", <<a, b>>, l, <<>>, "", "") :
 (* the machine: one record state, one deterministic step                    *)
 
 Start(c) ==
-  [c |-> c, pc |-> IF c.op = "lock" THEN "lock" ELSE "entries", k |-> 0,
+  [c |-> c, pc |-> IF c.op = "lock" THEN "lock" ELSE IF c.op = "download" THEN "download" ELSE "entries", k |-> 0,
    files |-> <<>>,                       \* names accepted by LoadArchiveFiles so far
    w |-> [f |-> IF c.op = "lock" THEN BaseFS
                 ELSE LayoutFS(c.layout, IF c.op = "expand" THEN ChartAt ELSE Dest),
           touched |-> {}, err |-> FALSE],
-   remaining |-> TLim, payload |-> 0,    \* size accounting of LoadArchiveFiles; payload bytes delivered
+   remaining |-> TLimOf(c), payload |-> 0,  \* size accounting of LoadArchiveFiles; payload bytes delivered
+   overbody |-> 0,                       \* payload bytes delivered from entries that declare more than FLim
    cd |-> <<>>,                          \* Expand: the chart directory chosen by SecureJoin(dest, chart name)
    res |-> "run", names |-> {}]
 
@@ -304,11 +330,12 @@ StepLoadEntry(s) ==
        ELSE LET nn == LoadNorm(e) IN
             IF nn.err THEN Fail(s)
             ELSE IF e.size > s.remaining \/ e.size > FLim THEN Fail(s)
-            ELSE IF e.short THEN Fail([s EXCEPT !.payload = s.payload + (e.size \div 2)])
-            ELSE LET rem == s.remaining - e.size IN
-                 IF rem <= 0 THEN Fail([s EXCEPT !.payload = s.payload + e.size])
-                 ELSE [s EXCEPT !.k = s.k + 1, !.remaining = rem, !.payload = s.payload + e.size,
-                                !.files = Append(s.files, nn.n)]
+            ELSE LET ob(n) == s.overbody + (IF e.size > FLim THEN n ELSE 0) IN
+                 IF e.short THEN Fail([s EXCEPT !.payload = s.payload + (e.size \div 2), !.overbody = ob(e.size \div 2)])
+                 ELSE LET rem == s.remaining - e.size IN
+                      IF rem <= 0 THEN Fail([s EXCEPT !.payload = s.payload + e.size, !.overbody = ob(e.size)])
+                      ELSE [s EXCEPT !.k = s.k + 1, !.remaining = rem, !.payload = s.payload + e.size, !.overbody = ob(e.size),
+                                     !.files = Append(s.files, nn.n)]
 
 \* --- Expand: chart directory, then one file per step
 AbsOut(cn) == IF cn # <<>> /\ cn[1] = "ABS" THEN <<"">> \o Tail(cn) ELSE cn
@@ -346,8 +373,16 @@ StepLock(s) ==
        IF lp \in DOMAIN f /\ f[lp].t = "link" THEN Fail([s EXCEPT !.w = w2])
        ELSE Finish([s EXCEPT !.w = WriteAt(w2, lp)])
 
+\* --- DownloadTo: fileutil.AtomicWriteFile(dest/<base name>): a temporary file is renamed over the target, so a
+\*     symlink at the target is REPLACED, not followed; renaming over a directory fails
+StepDownload(s) ==
+  LET tgt == Append(Dest, DlName(s.c.stream[1])) IN
+  IF tgt \in DOMAIN s.w.f /\ s.w.f[tgt].t = "dir" THEN Fail(s)
+  ELSE Finish([s EXCEPT !.w = WOk(Put(s.w.f, tgt, FileN), {[p |-> tgt, t |-> "file"]})])
+
 Step(s) ==
   CASE s.pc = "entries" /\ s.c.op = "extract" -> StepExtract(s)
+    [] s.pc = "download" -> StepDownload(s)
     [] s.pc = "entries" -> StepLoadEntry(s)
     [] s.pc = "chartdir" -> StepChartDir(s)
     [] s.pc = "writes" -> StepExpandWrite(s)
@@ -374,14 +409,17 @@ SizesOf(c)  == [i \in 1..Len(c.stream) |-> IF c.stream[i].type = "dir" THEN 0 EL
 RECURSIVE SumSeq(_)
 SumSeq(q) == IF q = <<>> THEN 0 ELSE Head(q) + SumSeq(Tail(q))
 MustReject(sizes, fl, tl) == (\E i \in DOMAIN sizes : sizes[i] > fl) \/ SumSeq(sizes) > tl
-SizeRejected(s) == (s.c.op \in {"load", "expand"} /\ s.pc = "done" /\ MustReject(SizesOf(s.c), FLim, TLim)) => s.res = "err"
-SizeBounded(s)  == s.payload <= TLim
+SizeRejected(s) == (s.c.op \in {"load", "expand"} /\ s.pc = "done" /\ MustReject(SizesOf(s.c), FLim, TLimOf(s.c))) => s.res = "err"
+SizeBounded(s)  == s.payload <= TLimOf(s.c)
+\* an entry declaring more than the per-file limit is rejected from its header: none of its body is delivered
+NoOversizeBody(s) == s.overbody = 0
 
 (* ======================================================================= *)
 (* Part II (C15): abstract charts, ignore rules, expected relations         *)
 (* ======================================================================= *)
 
-PathClasses    == {"top", "nested", "unicode", "dotfile", "tpldot", "chartsentry"}
+\* ("dotunder" / "dotundernested": names beginning with "._" at the top and below a directory: plain chart files)
+PathClasses    == {"top", "nested", "unicode", "dotfile", "tpldot", "chartsentry", "dotunder", "dotundernested"}
 ContentClasses == {"empty", "text", "binary", "bom", "crlf"}
 DepShapes      == {"none", "dir", "tgz", "dirdir", "dirtgz", "tgzdir", "tgztgz", "dirandtgz"}
 ValueClasses   == {"none", "text", "bom", "crlf", "multidoc"}
